@@ -173,7 +173,7 @@ def gen_spec(rng, idx, force=None):
         kind = kinds[j] if kinds else rng.choice(["np", "np", "np", "proto", "lazy", "custom", "packed4", "ext_other", "ext_other",
                                                   "ext_dest", "ext_small", "ext_zero", "string", "shared"])
         main = True if force.get("all_main") else rng.random() < 0.75
-        s = {"name": f"w{j}", "main": main, "kind": kind}
+        s = {"name": f"w{j}", "main": main, "kind": kind, "as_input": main and rng.random() < 0.25}   # also listed in graph.inputs
         if kind == "shared" and not [t for t in slots if t["kind"] not in ("shared", "ext_dest") and t.get("file") != data_name]:
             kind = s["kind"] = "np"
         if kind == "ext_dest" and not dest_pre:
@@ -340,7 +340,8 @@ def build(spec, root):
         n0.outputs[0].name = "idx_o"
         nodes.append(n0)
         outs.append(n0.outputs[0])
-    g = ir.Graph([x, c], outs, nodes=nodes, initializers=main_vals, opset_imports={"": 20}, name="main_g")
+    also_inputs = [v for s, v in zip(spec["slots"], values) if s["main"] and s.get("as_input")]
+    g = ir.Graph([x, c] + also_inputs, outs, nodes=nodes, initializers=main_vals, opset_imports={"": 20}, name="main_g")
     model = ir.Model(g, ir_version=10, producer_name="c20")
     # slot order of the Coq model = order in which ir.save snapshots: model.graphs() x initializers
     order = []
@@ -564,21 +565,49 @@ def eval_shards(ctx, requires, bodies, par=8):
         return list(ex.map(lambda ib: ctx.coq_eval(requires, ib[1], name=f"c20_shard{ib[0]}"), enumerate(bodies)))
 
 
+def _with_uninit(spec, main, as_input, pos):
+    """Copy of the spec with one initializer left without a value: in the main graph or a subgraph, also a graph input or
+    not, first / middle / last among the initializers of that graph (an extra one is inserted when none can be blanked)."""
+    s2 = dict(spec)
+    s2["slots"] = [dict(s) for s in spec["slots"]]
+    cands = [i for i, s in enumerate(s2["slots"]) if s["main"] == main and s["kind"] != "none" and not any(
+        t["kind"] == "shared" and t["share"] == i for t in s2["slots"])]
+    blank = {"name": "u_extra", "main": main, "kind": "none", "dtype": "float32", "shape": [1], "data": b"", "cls": "none"}
+    if not cands:
+        # keep `share` indices valid: only append
+        s2["slots"].append(blank)
+        i = len(s2["slots"]) - 1
+    else:
+        i = {"first": cands[0], "last": cands[-1]}.get(pos, cands[len(cands) // 2])
+        s2["slots"][i].update(kind="none", cls="none", data=b"")
+    s2["slots"][i]["as_input"] = bool(main and as_input)
+    s2["uninit"] = {"graph": "main" if main else "subgraph", "also_graph_input": bool(main and as_input), "position": pos,
+                    "other_large_tensors": any(len(s.get("data", b"")) > THRESHOLD for s in s2["slots"])}
+    return s2
+
+
 def uninit_variants(rng, spec):
-    """Near-miss stream: the same model with one initializer left without a value (main graph / subgraph)."""
-    res = []
-    for main in (True, False):
-        s2 = dict(spec)
-        s2["slots"] = [dict(s) for s in spec["slots"]]
-        cands = [i for i, s in enumerate(s2["slots"]) if s["main"] == main and not any(
-            t["kind"] == "shared" and t["share"] == i for t in s2["slots"])]
-        if not cands:
-            s2["slots"].append({"name": "u_extra", "main": main, "kind": "none", "dtype": "float32", "shape": [1], "data": b"", "cls": "none"})
-        else:
-            i = rng.choice(cands)
-            s2["slots"][i].update(kind="none", cls="none", data=b"")
-        res.append((main, s2))
-    return res
+    """Near-miss stream: the same model with one initializer left without a value."""
+    pos = rng.choice(["first", "middle", "last"])
+    return [(True, _with_uninit(spec, True, False, pos)), (True, _with_uninit(spec, True, True, rng.choice(["first", "middle", "last"]))),
+            (False, _with_uninit(spec, False, False, pos))]
+
+
+def uninit_grid(rng):
+    """main / subgraph x also-a-graph-input x position x (with / without other large tensors), on two fixed bases."""
+    small = gen_spec(rng, "grid-small", {"n": 4, "kinds": ["np", "np", "np", "np"], "dest_pre": False})
+    for j, s in enumerate(small["slots"]):
+        s.update(dtype="float32", shape=[3], data=_rand_bytes(rng, 12), cls="small", main=j < 2, as_input=False)
+    large = gen_spec(rng, "grid-large", {"n": 5, "kinds": ["np", "np", "np", "np", "np"], "dest_pre": False})
+    for j, s in enumerate(large["slots"]):
+        s.update(dtype="float32", shape=[100], data=_rand_bytes(rng, 400), cls="mid", main=j < 3, as_input=False)
+    out = []
+    for base in (small, large):
+        for pos in ("first", "middle", "last"):
+            out.append((True, _with_uninit(base, True, False, pos)))
+            out.append((True, _with_uninit(base, True, True, pos)))
+            out.append((False, _with_uninit(base, False, False, pos)))
+    return out
 
 
 def check_direct(ctx, spec, k, obs, uninit=None):
@@ -609,6 +638,8 @@ def check_direct(ctx, spec, k, obs, uninit=None):
         if not refused_clean:
             ok = False
             scope = "main-graph" if uninit else "subgraph"
+            if uninit and (spec.get("uninit") or {}).get("also_graph_input"):
+                scope = "main-graph-input"
             ctx.violation(f"C20:guard:uninitialized-{scope}-initializer",
                           f"a model whose {scope} has an initializer without a value is not refused before any I/O: outcome {obs['out']}, "
                           f"file-system calls made {len(obs['log'])}, files now {sorted(obs['files1'])}", rep)
@@ -636,6 +667,7 @@ def _has_dangling(spec):
 
 def _spec_for_replay(spec):
     return {"name": spec["name"], "verbose": spec["verbose"], "files": {f: len(c) for f, c in spec["files"].items()},
+            "uninitialised": spec.get("uninit"),
             "slots": [{k: (v.hex() if isinstance(v, bytes) and len(v) <= 64 else (f"<{len(v)} bytes sha1 {hashlib.sha1(v).hexdigest()[:10]}>" if isinstance(v, bytes) else
                                                                               ([p.hex() for p in v] if k == "parts" else v)))
                        for k, v in s.items()} for s in spec["slots"]]}
@@ -746,12 +778,13 @@ def run(ctx):
                 coq_cases.append(f"agrees ag M{mi} mp{mi} fs{mi} (Some {cnat(k)}) {coq_obs(spec, o, tid_of_slot)}")
                 meta.append((spec["idx"], k, o["out"], kind))
         # near misses: uninitialised initializer
-        extra = [(False, witness_spec())] if spec is specs[0] else []
+        extra = ([(False, witness_spec())] + uninit_grid(rng)) if spec is specs[0] else []
         for main, s2 in uninit_variants(rng, spec) + extra:
             o = run_once(s2, None)
             n_runs += 1
             check_direct(ctx, s2, None, o, uninit=main)
-            ctx.case(("uninit", "main" if main else "sub", o["out"]))
+            u = s2.get("uninit", {})
+            ctx.case(("uninit", "main" if main else "sub", u.get("also_graph_input"), u.get("position"), u.get("other_large_tensors"), o["out"]))
             if not any(s["kind"] == "string" and len(s["data"]) > THRESHOLD for s in s2["slots"]) and not o["out"].startswith("Other"):
                 mj = len(coq_defs)
                 mtxt2, tid2 = coq_model(s2, o["perm"])
